@@ -60,6 +60,15 @@ def run(F, R, tier):
             R.ob("justified-site-stale", k, False, "tables/justified_sites.json names a site that no longer exists")
 
     who_calls(F, R, A)
+    # print!/eprint! panic when the descriptor fails ("failed printing to stdout"): every remaining use in run-time code
+    from .lib import mir as M
+    for p in fns:
+        B = A.body(p)
+        n = sum(1 for b in B.blocks if not b.get("cleanup") and b["term"]["k"] == "call" and
+                (b["term"].get("callee") or "") in ("std::io::_print", "std::io::_eprint"))
+        if n:
+            R.ob("print-macro-on-failing-stream", p, False,
+                 "%d print!/eprint!-family call(s): they panic when stdout/stderr reports an error" % n, F.loc(F.fns[p]))
 
 
 def who_calls(F, R, A):
